@@ -34,7 +34,7 @@ func h5Main(env *Env, c *H5Cfg, sh *h5Shared) {
 	sh.iterDurNs = int64(rates.IterationDuration)
 	sh.ratesDurNs = int64(rates.Duration)
 	var twin *api.Rates
-	if c.Jitter > 0 && c.Kind != "jitter" && c.Kind != "dist" {
+	if c.Jitter > 0 && c.Kind != "jitter" && c.Kind != "dist" && c.Kind != "constant" {
 		// the same profile without jitter, evaluated at the same instants: the reference for C13
 		plain := *c
 		plain.Jitter = 0
